@@ -76,10 +76,10 @@ MIN_COUNTERS = {
               'definitions_parsed_big': 20,
               'definitions_parsed_mc': 200, 'definitions_parsed_wf': 200,
               'variant_blocks_checked': 50, 'names_longer_than_200': 20,
-              'recovered_failing_wraps': 1000,
-              'failed_wrap_twins_compared': 800,
-              'unwritable_retries_checked': 1500,
-              'unwritable_corrections_checked': 200},
+              'recovered_failing_wraps': 300,
+              'failed_wrap_twins_compared': 250,
+              'unwritable_retries_checked': 500,
+              'unwritable_corrections_checked': 60},
     'thorough': {'definitions_parsed': 50000, 'units_checked': 1000000,
                  'reader_roundtrips': 100000,
                  'width_first_pairs_checked': 100000, 'invalid_rejected': 10000,
